@@ -100,6 +100,7 @@ def c19(tier, seed):
     jobs = [Job(m, H, [m] + t, weight=w) for m, w in [("trim", 3), ("unchar", 1), ("copy", 2), ("tok", 3), ("gets", 3), ("misc", 2), ("dup", 2)]]
     for i in range(14):
         jobs.append(Job("replace-%02d" % i, H, ["replace", i] + t, weight=2))
+    jobs.append(bigfmt_job("qstring"))      # qstrdupf / qstrcatf across the 1024 * 2^k growth thresholds of the formatting buffer
     return jobs
 
 # ---------------------------------------------------------------- C17
@@ -155,12 +156,16 @@ def c20(tier, seed):
         jobs.append(Job("actype-%d" % p, H, ["actype", p], wraps=W, weight=4))
     for i in range(4):
         jobs.append(Job("acquote-%d" % i, H, ["acquote", 3, i, 4], wraps=W, weight=4))
-    for f, sh in ((0, 1), (1, 4), (2, 12), (3, 12)):
+    for f, sh in ((0, 1), (1, 12), (2, 10), (3, 10)):
         for i in range(sh):
             jobs.append(Job("acstruct-f%d-%02d" % (f, i), H, ["acstruct", f, 2, 2 + X, i, sh], wraps=W, weight=12))
     return jobs
 
 VA_WRAPS = ["malloc", "calloc", "realloc", "strdup", "free"]
+
+
+def bigfmt_job(which):
+    return Job("bigfmt-%s" % which, ["seqmc/bigfmt.c"], [which], wraps=VA_WRAPS, weight=0.5)
 
 
 def tree_jobs(tier, which):
@@ -174,6 +179,8 @@ def tree_jobs(tier, which):
             if X and cfg in (0, 2):
                 jobs.append(Job("tree-map-cfg%d-U14" % cfg, H, ["map", cfg, 14, 1], wraps=VA_WRAPS, weight=100))
             jobs.append(Job("tree-map-cfg%d-U%d-values" % (cfg, 7 if X else 6), H, ["map", cfg, 7 if X else 6, 3], wraps=VA_WRAPS, weight=20 if X else 5))
+    if which in ("map", "all"):
+        jobs.append(bigfmt_job("qtreetbl"))
     if which in ("walk", "all"):
         jobs.append(Job("tree-walk-U1", H, ["walk", 1, 0, 1], wraps=VA_WRAPS, weight=2))
         jobs.append(Job("tree-walk-U2", H, ["walk", 2, 0, 1], wraps=VA_WRAPS, weight=40))
@@ -194,7 +201,7 @@ def tree_jobs(tier, which):
       "of every universe key (both newmem modes, errno), size, find_min, find_max against a sorted-array model. "
       "A state is non-trivial when its canonical (shape, colour, key, value) string is new",
       ["reference ordering and sorted-array model in engines/seqmc/tree.c", "every transition is an execution of the real code: traces_validated_against_impl = transitions"],
-      [need("states", 1000), need("transitions", 10000), forbid("replay_divergence")], classes=["map:*"])
+      [need("states", 1000), need("transitions", 10000), forbid("replay_divergence")], classes=["map:*", "fmt:*"])
 def c01(tier, seed):
     return tree_jobs(tier, "map")
 
@@ -240,6 +247,7 @@ def hashtbl_jobs(tier):
     for rng in ([1, 2, 3, 5, 0] if X else [1, 2, 3, 0]):
         jobs.append(Job("hashtbl-r%d" % rng, H, [rng, 6 if X else 5, 2], wraps=VA_WRAPS, weight=10))
     jobs.append(Job("hashtbl-r2-putint", H, [2, 4, 3], wraps=VA_WRAPS, weight=10))
+    jobs.append(bigfmt_job("qhashtbl"))
     return jobs
 
 
@@ -250,7 +258,7 @@ def hashtbl_jobs(tier):
       "(both newmem), getstr, getint, size, errno, and complete getnext walks in both newmem modes against a map model",
       ["map model in engines/seqmc/hashtbl.c; slot prediction by an independent MurmurHash3"],
       [need("states", 500), need("unlink_head"), need("unlink_middle"), need("unlink_tail"), need("max_chain", 3), forbid("replay_divergence")],
-      classes=["map:*", "walk:*"])
+      classes=["map:*", "walk:*", "fmt:*"])
 def c05(tier, seed):
     return hashtbl_jobs(tier)
 
@@ -263,6 +271,9 @@ def listtbl_jobs(tier):
         jobs.append(Job("listtbl-opt%02d" % opt, H, [opt, 5 if X else 4, 4 if X else 3], wraps=VA_WRAPS, weight=30 if X else 4))
     for opt in (0, 15) if not X else (0, 5, 10, 15):
         jobs.append(Job("listtbl-values-opt%02d" % opt, H, ["values", opt], wraps=VA_WRAPS, weight=6))
+    for opt in (0, 2, 4, 8, 12):
+        jobs.append(Job("listtbl-multi-opt%02d" % opt, H, ["multi", opt], wraps=VA_WRAPS, weight=1))
+    jobs.append(bigfmt_job("qlisttbl"))
     return jobs
 
 
@@ -276,7 +287,7 @@ def listtbl_jobs(tier):
       ["ordered-multimap model in engines/seqmc/listtbl.c", "load is checked against 'put every saved line in file order into a table with the loader's options'; "
        "for an appending loader that is the saved order"],
       [need("states", 1000), need("saveload_roundtrips", 1000), forbid("replay_divergence")],
-      classes=["multimap:*", "saveload:*", "list:*"])
+      classes=["multimap:*", "saveload:*", "list:*", "fmt:*"])
 def c08(tier, seed):
     return listtbl_jobs(tier)
 
@@ -286,6 +297,7 @@ def list_jobs(tier):
     jobs = [Job("list-L%d" % (7 if X else 5), ["seqmc/list.c"], [7 if X else 5], wraps=VA_WRAPS, weight=30)]
     for kind in ("queue", "stack", "grow"):
         jobs.append(Job("%s-L%d" % (kind, 7 if X else 5), ["seqmc/qsg.c"], [kind, 7 if X else 5], wraps=VA_WRAPS, weight=10))
+    jobs.append(bigfmt_job("qgrow"))
     return jobs
 
 
@@ -297,7 +309,7 @@ def list_jobs(tier):
       "buffer: the same search through push/pushstr/pushint, pop/popstr/popint/popat, get*/getat, setsize, clear and "
       "add/addstr/addstrf, toarray, tostring, size, datasize, clear (FIFO / LIFO / concatenation models)",
       ["sequence models in engines/seqmc/list.c and qsg.c"],
-      [need("states", 1000), forbid("replay_divergence")], classes=["seq:*"])
+      [need("states", 1000), forbid("replay_divergence")], classes=["seq:*", "fmt:*"])
 def c09(tier, seed):
     return list_jobs(tier)
 
@@ -330,6 +342,7 @@ def hasharr_jobs(tier):
     jobs = [Job("hasharr-bigkey", ["imagemc/hasharr.c"], ["bigkey"], wraps=VA_WRAPS, weight=1)]
     for m in ([2, 3, 4, 5, 6, 7] if X else [2, 3, 4, 5]):
         jobs.append(Job("hasharr-M%d" % m, ["imagemc/hasharr.c"], [m], wraps=VA_WRAPS, weight=10 ** (m - 2)))
+    jobs.append(bigfmt_job("qhasharr"))
     return jobs
 
 
@@ -344,7 +357,7 @@ def hasharr_jobs(tier):
       "unchanged or absent; remove_by_idx succeeds iff that slot holds a key. Plus a 65535-byte key single case",
       ["map + slot-accounting model in engines/imagemc/hasharr.c", "slots(len) = 1 + ceil(max(0, len-32)/66)"],
       [need("states", 5000), need("relocations"), need("promotions"), need("slots_extension_seen"), need("slots_collision_seen"), forbid("replay_divergence")],
-      classes=["space:*", "image:get-*", "image:remove*", "image:walk-*", "image:bigkey", "image:ctor"])
+      classes=["space:*", "image:get-*", "image:remove*", "image:walk-*", "image:bigkey", "image:ctor", "fmt:*"])
 def c06(tier, seed):
     return hasharr_jobs(tier)
 
